@@ -31,9 +31,21 @@ ASSUMPTIONS = [
 NF = 4
 
 
+def _rd(A, B):
+    """Largest element-wise difference relative to 1 + |A| + |B| (inf if anything is not finite): no entry of the matrix
+    (the very far row of a polynomial kernel reaches 1e13) sets the tolerance of another."""
+    A, B = np.asarray(A, float), np.asarray(B, float)
+    if not (np.all(np.isfinite(A)) and np.all(np.isfinite(B))):
+        return np.inf
+    return float((np.abs(A - B) / (1 + np.abs(A) + np.abs(B))).max()) if A.size else 0.0
+
+
 def _XY():
-    X = np.array([[0.3, 1.1, 0.7, 0.2], [0.3, 1.1, 0.7, 0.2], [1.9, 0.4, 0.1, 1.3], [0.05, 0.9, 1.6, 0.6], [6.0, 5.5, 7.1, 4.9], [0.8, 0.8, 0.8, 0.8]])
-    Y = np.array([[0.5, 0.2, 1.4, 0.9], [0.3, 1.1, 0.7, 0.2], [1.2, 1.7, 0.3, 0.4], [5.0, 6.5, 4.1, 7.9], [0.1, 0.6, 0.2, 1.5]])
+    # coincident rows, a moderately far row (kernel values ~1e-40) and a VERY far row (squared-exponential kernels underflow
+    # to exactly 0 there); Y also holds the zero vector (exact zero of the linear / polynomial base kernels)
+    X = np.array([[0.3, 1.1, 0.7, 0.2], [0.3, 1.1, 0.7, 0.2], [1.9, 0.4, 0.1, 1.3], [0.05, 0.9, 1.6, 0.6], [6.0, 5.5, 7.1, 4.9], [0.8, 0.8, 0.8, 0.8],
+                  [90.0, 85.0, 97.0, 79.0]])
+    Y = np.array([[0.5, 0.2, 1.4, 0.9], [0.3, 1.1, 0.7, 0.2], [1.2, 1.7, 0.3, 0.4], [5.0, 6.5, 4.1, 7.9], [0.1, 0.6, 0.2, 1.5], [0.0, 0.0, 0.0, 0.0]])
     return X, Y
 
 
@@ -338,19 +350,19 @@ def run_case(case):
     if not (np.array_equal(X, X0) and np.array_equal(Y, Y0)):
         fails.append({"key": "input-modified;" + ck, "msg": "evaluating the kernel changed the caller's sample arrays (max change %.3e)" % max(np.abs(X - X0).max(), np.abs(Y - Y0).max())})
         X[:], Y[:] = X0, Y0
-    if np.all(np.isfinite(KXXa)) and np.abs(KXXa - KXX).max() > 1e-12 * sc and not _has(t, ["White", "DensityNoise", "ExpDensityNoise", "FittedDensityNoise"]):
+    if np.all(np.isfinite(KXXa)) and _rd(KXXa, KXX) > 1e-12 and not _has(t, ["White", "DensityNoise", "ExpDensityNoise", "FittedDensityNoise"]):
         fails.append({"key": "kXX-aliased;" + ck, "msg": "k(X, X) with the same array on both sides differs from k(X): %.3e" % np.abs(KXXa - KXX).max()})
     if not np.all(np.isfinite(KXX)) or not np.all(np.isfinite(KXY)):
         fails.append({"key": "nonfinite;" + ck, "msg": "kernel matrix not finite"})
         return {"fail": fails, "evals": evals, "outcome": "nonfinite"}
     noise = _has(t, ["White", "DensityNoise", "ExpDensityNoise", "FittedDensityNoise"])
-    if np.abs(KXY - KYX.T).max() > 1e-12 * sc:
+    if _rd(KXY, KYX.T) > 1e-12:
         fails.append({"key": "not-symmetric-XY;" + ck, "msg": "k(X,Y) != k(Y,X)^T: %.3e" % np.abs(KXY - KYX.T).max()})
-    if np.abs(KXX - KXX.T).max() > 1e-12 * sc:
+    if _rd(KXX, KXX.T) > 1e-12:
         fails.append({"key": "not-symmetric-XX;" + ck, "msg": "k(X,X) not symmetric: %.3e" % np.abs(KXX - KXX.T).max()})
     try:
         d = build(t).diag(X)
-        if np.abs(d - np.diag(KXX)).max() > 1e-12 * sc:
+        if _rd(d, np.diag(KXX)) > 1e-12:
             fails.append({"key": "diag;" + ck, "msg": "diag(X) != diag k(X,X): max diff %.3e (diag %s vs %s)" % (np.abs(d - np.diag(KXX)).max(), d[:3], np.diag(KXX)[:3])})
     except Exception as e:
         fails.append({"key": "diag-raises;%s;%s" % (ck, type(e).__name__), "msg": "diag raised %s: %s" % (type(e).__name__, str(e)[:150])})
@@ -362,23 +374,23 @@ def run_case(case):
         A = call(build(t[1]), X, Y)
         B = call(build(t[2]), X, Y)
         want = A + B if t[0] == "+" else A * B
-        if np.abs(KXY - want).max() > 1e-12 * sc:
+        if _rd(KXY, want) > 1e-12:
             fails.append({"key": "algebra;" + ck, "msg": "composite kernel != %s of its components: %.3e" % ("sum" if t[0] == "+" else "product", np.abs(KXY - want).max())})
     if t[0] == "pow":
         A = call(build(t[1]), X, Y)
-        if np.abs(KXY - A ** t[2]).max() > 1e-12 * sc:
+        if _rd(KXY, A ** t[2]) > 1e-12:
             fails.append({"key": "algebra;" + ck, "msg": "power kernel != component ** %d" % t[2]})
     if t[0] in ("+c", "*c"):
         A = call(build(t[1]), X, Y)
         want = A + t[2] if t[0] == "+c" else A * t[2]
-        if np.abs(KXY - want).max() > 1e-12 * sc:
+        if _rd(KXY, want) > 1e-12:
             fails.append({"key": "algebra;" + ck, "msg": "kernel (op) constant != component (op) constant"})
     # spin-block exchange
     if t[0] == "leaf" and t[1] in SPIN:
         a, b = SPIN[t[1]]
         Xs = X.copy()
         Xs[:, a], Xs[:, b] = X[:, b], X[:, a]
-        if np.abs(call(build(t), Xs, Y) - KXY).max() > 1e-12 * sc:
+        if _rd(call(build(t), Xs, Y), KXY) > 1e-12:
             fails.append({"key": "spin-exchange;" + ck, "msg": "kernel changes when the spin blocks of X are exchanged"})
     # hyper-parameter gradient
     try:
@@ -388,7 +400,7 @@ def run_case(case):
         if G.shape != KXX.shape + (th0.size,):
             fails.append({"key": "theta-gradient-shape;" + ck, "msg": "gradient has %s, kernel has %d non-fixed hyper-parameters" % (G.shape, th0.size)})
         elif th0.size:
-            if np.abs(Kg - KXX).max() > 1e-12 * sc:
+            if _rd(Kg, KXX) > 1e-12:
                 fails.append({"key": "value-with-gradient;" + ck, "msg": "k(X, eval_gradient=True)[0] != k(X)"})
             gs = 1 + np.abs(G).max()
             for i in range(th0.size):
@@ -403,8 +415,12 @@ def run_case(case):
                     ds.append((call(kp, X) - call(km, X)) / (2 * h))
                     evals += 2
                 num = (4 * ds[1] - ds[0]) / 3
-                err = np.abs(num - G[:, :, i]).max()
-                if err > 2e-7 * gs:
+                # element-wise floor of the difference quotient itself: rounding of |k| (up to 1e13 on the very far row of a
+                # polynomial kernel) divided by the step
+                floor = 16 * np.finfo(float).eps * np.abs(KXX) / 5e-5
+                # element-wise scale: the very far row must not set the tolerance of the other entries
+                err = ((np.abs(num - G[:, :, i]) - floor) / (1 + np.abs(G[:, :, i]) + np.abs(KXX))).max()
+                if not err <= 2e-7:
                     fails.append({"key": "theta-gradient;%s;theta=%d" % (ck, i), "msg": "d k/d log-theta[%d] = %.8g numerically but %.8g returned (max abs diff %.3e)" % (
                         i, num.flat[np.argmax(np.abs(num - G[:, :, i]))], G[:, :, i].flat[np.argmax(np.abs(num - G[:, :, i]))], err)})
                     break
@@ -414,9 +430,13 @@ def run_case(case):
     try:
         k = build(t)
         kk, dk = k.k_and_deriv(X, Y)
-        if np.abs(kk - KXY).max() > 1e-12 * sc:
+        if _rd(kk, KXY) > 1e-12:
             fails.append({"key": "k_and_deriv-value;" + ck, "msg": "k_and_deriv value != k(X,Y): %.3e" % np.abs(kk - KXY).max()})
-        gs = 1 + np.abs(dk).max()
+        if not np.all(np.isfinite(dk)):
+            bad = np.argwhere(~np.isfinite(dk))[0]
+            fails.append({"key": "input-gradient-nonfinite;%s" % ck, "msg": "k_and_deriv returns %s for d k(X_%d,Y_%d)/d X[%d] where k = %.3e" % (
+                dk[tuple(bad)], bad[0], bad[1], bad[2], KXY[bad[0], bad[1]])})
+            return {"fail": fails, "evals": evals, "outcome": "nonfinite-gradient"}
         for f in range(X.shape[1]):
             ds = []
             for h in (1e-4, 5e-5):
@@ -426,8 +446,9 @@ def run_case(case):
                 ds.append((call(build(t), Xp, Y) - call(build(t), Xm, Y)) / (2 * h))
                 evals += 2
             num = (4 * ds[1] - ds[0]) / 3
-            err = np.abs(num - dk[:, :, f]).max()
-            if err > 2e-7 * gs:
+            floor = 16 * np.finfo(float).eps * np.abs(KXY) / 5e-5
+            err = ((np.abs(num - dk[:, :, f]) - floor) / (1 + np.abs(dk[:, :, f]) + np.abs(KXY))).max()
+            if not err <= 2e-7:
                 fails.append({"key": "input-gradient;%s" % ck, "msg": "d k(X_i,Y_j)/d X_i[%d] differs from k_and_deriv by %.3e" % (f, err)})
                 break
     except (NotImplementedError, AttributeError):
